@@ -663,6 +663,7 @@ class Director(object):
         # process): the main stream, hence the histories of the competition under test, stay what they were
         self.aux = random.Random((aux_seed << 1) | 1)
         self.p_co = self.aux.choice([0.0, 0.0, 0.0, 0.08, 0.25])
+        self.crash_everywhere = (check == 'C08' and self.aux.random() < 0.02)
         self.co_bibs = []; self.co_h = None; self.co_n = 0
         self.check = check
         thorough = tier_ == 'thorough'
@@ -752,6 +753,12 @@ class Director(object):
     def maybe_fault(self, ex, hot=False):
         r = self.rng
         if self.check != 'C08':
+            return
+        if self.crash_everywhere:
+            # 2 % of the C08 runs: after EVERY call the object is rebuilt from the log and from the card and
+            # every interleaving of the current height is re-executed ("every competition prefix reachable")
+            ex.step(('crash_log',)); ex.step(('crash_card',)); ex.step(('resched', 'last_all', 0))
+            self.co_n += 3
             return
         p = self.crash * (3.0 if hot else 1.0)
         if r.random() < p:
